@@ -213,6 +213,57 @@ def r2_1(ctx: Ctx) -> RuleResult:
     return rr
 
 
+def subquery_starts(ctx: Ctx, cls, fn: FuncInfo):  # type: ignore[no-untyped-def]
+    """How does a filter path node start its sub-query?  For every start found in
+    `fn`: dict(call=<ast.Call>, start=<path of the start value>, root=<path of the
+    root that nested filters will see>, fc=<path of the filter context handed on>).
+
+    (A) self.path.finditer[_async](X, filter_context=F): starts at X and *re-roots* at X
+    (B) self.path.resolve[_async](N) with N a node constructed by JSONPathMatch(...)
+        (directly or through a helper method of the class)
+    """
+    ctxp = fn.node.args.args[1].arg if len(fn.node.args.args) > 1 else "context"
+    out = []
+    for c in calls(fn.node):
+        name = callee_name(c)
+        if not (isinstance(c.func, ast.Attribute) and path_of(c.func.value) == "self.path"):
+            continue
+        if name in ("finditer", "finditer_async") and c.args:
+            x = path_of(c.args[0])
+            fc = kw(c, "filter_context")
+            out.append({"call": c, "start": x, "root": x, "fc": path_of(fc) if fc is not None else None, "ctx": ctxp})
+        elif name in ("resolve", "resolve_async") and c.args:
+            node = c.args[0]
+            mapping = {ctxp: ctxp}
+            ctor = None
+            if isinstance(node, ast.Call) and callee_name(node) in ("JSONPathMatch", "match_class"):
+                ctor = node
+            elif isinstance(node, ast.Call) and isinstance(node.func, ast.Attribute) and path_of(node.func.value) == "self":
+                helper = ctx.repo.find_method(cls, node.func.attr)
+                if helper is not None:
+                    hparams = [a.arg for a in helper.node.args.args][1:]
+                    for hp, a in zip(hparams, node.args):
+                        if path_of(a):
+                            mapping[hp] = path_of(a)
+                    rets = [r for r in ast.walk(helper.node) if isinstance(r, ast.Return)]
+                    if len(rets) == 1 and isinstance(rets[0].value, ast.Call) and callee_name(rets[0].value) in ("JSONPathMatch", "match_class"):
+                        ctor = rets[0].value
+            if ctor is None:
+                out.append({"call": c, "start": None, "root": None, "fc": None, "ctx": ctxp})
+                continue
+
+            def mapped(e):  # type: ignore[no-untyped-def]
+                p = path_of(e) if e is not None else None
+                if p is None:
+                    return None
+                head, _, rest = p.partition(".")
+                return mapping.get(head, head) + ("." + rest if rest else "")
+
+            out.append({"call": c, "start": mapped(kw(ctor, "obj")), "root": mapped(kw(ctor, "root")),
+                        "fc": mapped(kw(ctor, "filter_context")), "ctx": ctxp})
+    return out
+
+
 def path_classes(ctx: Ctx):  # type: ignore[no-untyped-def]
     base = ctx.repo.require_class("jsonpath.filter.Path")
     return ctx.repo.subclasses(base, strict=True)
@@ -380,19 +431,23 @@ def r2_3(ctx: Ctx) -> RuleResult:
             fn = cls.methods.get(name)
             if fn is None:
                 raise AnalysisError(f"{cname}.{name} not found")
-            ctxp = fn.node.args.args[1].arg
-            args_ok = True
-            n_calls = 0
-            for c in calls(fn.node):
-                if callee_name(c) in ("finditer", "finditer_async") and c.args:
-                    n_calls += 1
-                    if path_of(c.args[0]) != f"{ctxp}.{attr}":
-                        args_ok = False
-                        rr.bad(fn, c, f"{cname} must start its query at context.{attr}", construct=short(c))
-            if n_calls == 0:
+            starts = subquery_starts(ctx, cls, fn)
+            if not starts:
                 raise AnalysisError(f"R2.3: {cname}.{name} does not evaluate its query")
-            if args_ok:
-                rr.ok(fn.loc(), f"{fn.qualname}: query starts at context.{attr}")
+            for st in starts:
+                ctxp = st["ctx"]
+                c = st["call"]
+                if st["start"] is None:
+                    raise AnalysisError(f"R2.3: cannot see how {cname}.{name} builds the start node of its query")
+                if st["start"] != f"{ctxp}.{attr}":
+                    rr.bad(fn, c, f"{cname} must start its query at context.{attr}, not at {st['start']}",
+                           construct=f"{cname}.{name}: starts at {st['start']}")
+                elif st["root"] != f"{ctxp}.root":
+                    rr.bad(fn, c, f"{cname} evaluates its query with {st['root']} as the root: a filter nested in "
+                           "that query would resolve `$` against it instead of the query argument "
+                           "(`$.items[?@.a[?@.b == $.x]]`)", construct=f"{cname}.{name}: nested root is {st['root']}")
+                else:
+                    rr.ok(fn.loc(c), f"{fn.qualname}: query starts at context.{attr}, nested `$` stays context.root")
     return rr
 
 
